@@ -1,5 +1,6 @@
 import BoolFn.Proofs.Oracle3
 import BoolFn.Proofs.NormalFormShape
+import BoolFn.Proofs.NormalFormFixed
 /-! # C11 — Normal-form conversions preserve the function and produce the promised shape
 
 Conversion to negation, conjunctive or disjunctive normal form returns an expression denoting the
@@ -42,6 +43,23 @@ theorem is_nnf_iff_shape (e : Expr α) : isNnf e = shapeNnf e := isNnf_eq_shape 
 theorem is_cnf_iff_shape (e : Expr α) : isCnf e = shapeCnf e := isCnf_eq_shape e
 theorem is_dnf_iff_shape (e : Expr α) : isDnf e = shapeDnf e := isDnf_eq_shape e
 
+/-- an expression the library already accepts as NNF is returned unchanged by `to_nnf` -/
+theorem nnf_fixed_point (e : Expr α) (h : isNnf e = true) : toNnf e = e := toNnf_of_isNnf e h
+/-- the predicates are nested: CNF and DNF expressions are NNF expressions, and those are constant-free -/
+theorem cnf_is_nnf (e : Expr α) (h : isCnf e = true) : isNnf e = true := isNnf_of_isCnf e h
+theorem dnf_is_nnf (e : Expr α) (h : isDnf e = true) : isNnf e = true := isNnf_of_isDnf e h
+theorem nnf_is_const_free (e : Expr α) (h : isNnf e = true) : constFree e = true := constFree_of_isNnf e h
+/-- hence the CNF/DNF of a constant-free expression is also accepted by `is_nnf`, and a second
+    `to_nnf` leaves it as it is -/
+theorem cnf_result_is_nnf (e : Expr α) (h : constFree e = true) : isNnf (toCnf e) = true :=
+  isNnf_of_isCnf _ (isCnf_toCnf e h)
+theorem dnf_result_is_nnf (e : Expr α) (h : constFree e = true) : isNnf (toDnf e) = true :=
+  isNnf_of_isDnf _ (isDnf_toDnf e h)
+theorem nnf_of_cnf_result (e : Expr α) (h : constFree e = true) : toNnf (toCnf e) = toCnf e :=
+  toNnf_of_isNnf _ (cnf_result_is_nnf e h)
+theorem nnf_of_dnf_result (e : Expr α) (h : constFree e = true) : toNnf (toDnf e) = toDnf e :=
+  toNnf_of_isNnf _ (dnf_result_is_nnf e h)
+
 /-- the Rust `to_cnf` re-normalises every child of the NNF before recursing; that is the identity,
     so the structural `cnfN` of the model is the function the code computes -/
 theorem renormalising_children_is_identity (e : Expr α) : toNnf (toNnf e) = toNnf e := toNnf_toNnf e
@@ -73,5 +91,11 @@ theorem spec_holds_of_model (e : Expr String) :
 example : constFree (Expr.or [.and [.lit "a", .or [.lit "b", .not (.and [.lit "a", .lit "c"])]], .lit "c"]) = true := by decide
 example : isCnf (toCnf (Expr.or [.and [.lit "a", .or [.lit "b", .not (.and [.lit "a", .lit "c"])]], .lit "c"])) = true := by decide
 example : isCnf (Expr.or [.and [.lit "a", .lit "b"], .lit "c"]) = false := by decide
+
+/-- non-vacuity of the fixed-point and nesting theorems -/
+example : isNnf (Expr.and [.or [.lit "a", .not (.lit "b")], .lit "c"]) = true := by decide
+example : isCnf (Expr.and [.or [.lit "a", .not (.lit "b")], .lit "c"]) = true := by decide
+example : isNnf (Expr.or [.and [.lit "a", .lit "b"], .lit "c"]) = true ∧
+    isCnf (Expr.or [.and [.lit "a", .lit "b"], .lit "c"]) = false := by decide
 
 end BoolFn.C11
